@@ -521,7 +521,7 @@ Lemma hist_complete s x tm c v :
   (forall f, fut_get s c = Some f -> justified (g_rx (g s)) (g_tx (g s)) f) ->
   (* the call that holds the mutex, afterwards *)
   match k_api (k tm) with
-  | Some (c0, pc) => k_api (k s) = Some (c0, pc) /\ pc <> AReqFin
+  | Some (c0, pc) => k_api (k s) = Some (c0, pc)
   | None => True
   end ->
   InvHist tm.
@@ -538,16 +538,31 @@ Proof.
   split; [exact A1|]. split.
   { intros c0 cl Hc. apply Nt; [reflexivity|]. eapply A2; exact Hc. }
   split.
-  { destruct (k_api (k tm)) as [[c0 pc]|]; [|exact I]. destruct Hapi as [Hs Hpc]. rewrite Hs in A3.
+  { destruct (k_api (k tm)) as [[c0 pc]|]; [|exact I]. rename Hapi into Hs. rewrite Hs in A3.
     destruct A3 as [P F]. split; [exact P|].
-    destruct pc; cbn [api_fut] in *; try exact I; try (apply Nt; [reflexivity|exact F]); try contradiction.
+    destruct pc; cbn [api_fut] in *; try exact I; try (apply Nt; [reflexivity|exact F]).
     - destruct F as (f & Hf & Hk). destruct (M _ _ Hf) as (f' & Hf' & Mm). unfold meta in Mm. injection Mm as _ Mk _ _.
       exists f'. split; [exact Hf'|congruence].
     - destruct F as (f & Hf & Hk). destruct (M _ _ Hf) as (f' & Hf' & Mm). unfold meta in Mm. injection Mm as _ Mk _ _.
-      exists f'. split; [exact Hf'|congruence]. }
+      exists f'. split; [exact Hf'|congruence].
+    - destruct F as (f & Hf & Hk & Hq). destruct (M _ _ Hf) as (f' & Hf' & Mm). unfold meta in Mm. injection Mm as _ Mk _ Mt.
+      exists f'. split; [exact Hf'|]. split; [congruence|]. rewrite Ftx. unfold qos0_clause in *. rewrite Mt. exact Hq. }
   split; [exact (hist_B s tm M Hst B)|]. split; [exact C'|].
   apply (hist_D s tm M); [left; exact Hcf|exact D].
 Qed.
+
+Lemma head_in_window {A} (x : A) rest m : In x (firstn (S (length (x :: rest) - m)) (x :: rest)).
+Proof. cbn [firstn]. left. reflexivity. Qed.
+
+Lemma ack_justified rx tx f p rest : rx = p :: rest -> is_ack_for (cf_id f) p = true -> cf_kind f <> KConnect ->
+  justified rx tx f.
+Proof.
+  intros -> Ha Hk. assert (X : ack_clause (p :: rest) f) by (exists p; split; [apply head_in_window|exact Ha]).
+  unfold justified. destruct (cf_kind f) as [|[|q]| |]; [contradiction|right; exact X|exact X|exact X|exact X].
+Qed.
+
+Lemma connack_justified rx tx f sp rest : rx = Connack sp 0 :: rest -> cf_kind f = KConnect -> justified rx tx f.
+Proof. intros -> Hk. unfold justified. rewrite Hk. exists sp. apply head_in_window. Qed.
 
 Lemma sub_del {A} (m : list (N * A)) k : NoDup (akeys m) ->
   forall j c, amap_get (amap_del m k) j = Some c -> amap_get m j = Some c.
@@ -555,7 +570,7 @@ Proof. intros Hnd j c H. rewrite aget_del in H by exact Hnd. destruct (j =? k); 
 
 Lemma InvHist_step s e s' : InvWf s -> InvRx s -> InvHist s -> step s e = Some s' -> InvHist s'.
 Proof.
-  intros (_ & _ & _ & W4 & W5) R (A1 & A2 & A3 & B & C & D) H.
+  intros (_ & _ & _ & W4 & W5) R INV H. pose proof INV as (A1 & A2 & A3 & B & C & D).
   destruct e.
   all: step_cases H.
   all: try (destruct cu; cbn [cu_hidden] in *; try discriminate;
@@ -648,5 +663,81 @@ Proof.
            destruct (fin_clause _ _ r id f' G Eq (eq_trans Mk Hk)) as [K Q];
            cbn [api_fut]; exists f'; split; [exact Hf'|split; [exact K|]];
            simp_proj; rewrite Ep; subst; exact Q ] end].
-  Show.
-Admitted.
+  (* Connect creates its future *)
+  all: try solve [match goal with E : k_api (k _) = Some (?n, AConnDial) |- InvHist ?tm =>
+         apply (hist_create_connect s tm n INV (or_introl E));
+         [intros ?; reflexivity|repeat split; reflexivity|reflexivity|reflexivity|reflexivity] end].
+  all: try solve [match goal with E : k_api (k _) = Some (?n, AConnReset) |- InvHist ?tm =>
+         apply (hist_create_connect s tm n INV (or_intror E));
+         [intros ?; reflexivity|repeat split; reflexivity|reflexivity|reflexivity|reflexivity] end].
+  (* a request creates and stores its future *)
+  all: try solve [match goal with E : k_api (k _) = Some (?n, AReqPut ?r ?id) |- InvHist (set_api _ (Some (_, ?pc))) =>
+         apply (hist_create_req s _ n r id pc INV E);
+         [ intros ?; reflexivity | repeat split; simp_proj; reflexivity | simp_proj; reflexivity
+         | first [left; reflexivity|right; reflexivity] | simp_proj; reflexivity | simp_proj; reflexivity ] end].
+  all: try solve [match goal with E : k_api (k _) = Some (?n, AReqPut ?r ?id) |- InvHist (finish_call _ _ _) =>
+         apply (hist_create_req_fail s _ n r id INV W4 E);
+         [ intros ?; reflexivity | repeat split; simp_proj; reflexivity | simp_proj; reflexivity
+         | simp_proj; reflexivity | simp_proj; reflexivity ] end].
+  (* the QoS 0 publish completes its own future *)
+  all: try solve [match goal with E : k_api (k _) = Some (?n, AReqFin) |- InvHist (finish_call (store_del_f (fut_complete ?x ?c ?v) _) _ _) =>
+         apply (hist_complete s x _ c v INV);
+         [ evt | intros ?; reflexivity | repeat split; simp_proj; reflexivity
+         | simp_proj; apply sub_del; exact W4 | simp_proj; reflexivity
+         | try rewrite E in A3; cbv iota beta in A3; destruct A3 as [_ (f0 & Hf0 & Hk & Hq)];
+           intros f Hf; rewrite Hf in Hf0; injection Hf0 as <-; unfold justified; rewrite Hk; left; exact Hq
+         | simp_proj; exact I ] end].
+  (* CONNACK accepted *)
+  all: try solve [match goal with E : k_ppc (k _) = PConnack ?sp ?rc, E2 : negb (?rc =? 0) = false,
+                       Ec : t_connfut (t _) = Some ?n |- InvHist (set_ppc (fut_complete ?x ?n ?v) PAll) =>
+         apply negb_false_iff, N.eqb_eq in E2;
+         simp_in Ec; try rewrite Ec in D; destruct D as (f0 & Hf0 & Hk);
+         unfold InvRx in R; rewrite E in R; cbn [rx_pc] in R; destruct R as [rest Hrx]; rewrite E2 in Hrx;
+         apply (hist_complete s x _ n v INV);
+         [ evt | intros ?; reflexivity | repeat split; simp_proj; reflexivity
+         | simp_proj; intros ? ? X0; exact X0 | simp_proj; reflexivity
+         | intros f Hf; rewrite Hf in Hf0; injection Hf0 as <-; eapply connack_justified; eassumption
+         | simp_proj; destruct (k_api (k s)) as [[? ?]|]; [reflexivity|exact I] ] end].
+  (* an acknowledgement completes the future stored under its id *)
+  all: try solve [match goal with E : k_ppc (k _) = PAckFut ?p, E1 : get_id ?p = Some ?id, E2 : store_get_f _ ?id = Some ?c
+                       |- InvHist (set_ppc ?inner (PRecv false)) =>
+         unfold store_get_f in E2; destruct (B _ _ E2) as (f0 & Hf0 & Hi & Hk);
+         unfold InvRx in R; rewrite E in R; cbn [rx_pc] in R; destruct R as [[rest Hrx] Hack];
+         match inner with
+         | store_del_f (fut_complete ?x _ ?v) _ => apply (hist_complete s x _ c v INV)
+         | fut_complete ?x _ ?v => apply (hist_complete s x _ c v INV)
+         end;
+         [ evt | intros ?; reflexivity | repeat split; simp_proj; reflexivity
+         | simp_proj; apply sub_del; exact W4 | simp_proj; reflexivity
+         | intros f Hf; rewrite Hf in Hf0; injection Hf0 as <-;
+           eapply ack_justified; [exact Hrx| |exact Hk]; rewrite Hi; apply is_ack_for_of; assumption
+         | simp_proj; destruct (k_api (k s)) as [[? ?]|]; [reflexivity|exact I] ] end].
+Qed.
+
+Definition InvH (s : st) : Prop := InvG s /\ InvHist s.
+
+Lemma InvH_reach es s : run step init es = Some s -> InvH s.
+Proof.
+  apply reach_inv.
+  - split; [|exact InvHist_init]. split; [|exact InvTot_init]. split; [|exact InvCl_init].
+    split; [|exact InvRx_init]. split; [|exact InvSbs_init].
+    split; [apply InvWf_init|split; [apply InvCtl_init|split; [apply InvOwed_init|apply InvHs_init]]].
+  - intros s0 e s1 ((((((HW & HC & HO & HH) & HS) & HR) & HL) & HT) & HI) Hs.
+    split; [split; [split; [split; [split|]|]|]|].
+    + split; [eapply InvWf_step; eassumption|].
+      split; [eapply InvCtl_step; eassumption|].
+      split; [eapply InvOwed_step; eassumption|].
+      eapply InvHs_step; eassumption.
+    + eapply InvSbs_step; eassumption.
+    + eapply InvRx_step; eassumption.
+    + eapply InvCl_step; eassumption.
+    + eapply InvTot_step; eassumption.
+    + eapply InvHist_step; eassumption.
+Qed.
+
+Theorem future_truthful_history : C09_future_truthful_history_statement.
+Proof.
+  intros es s Hr c f Hf Hc. destruct (InvH_reach _ _ Hr) as (_ & (_ & _ & _ & _ & C & _)).
+  destruct (C _ _ Hf) as [_ J]. exact (J Hc).
+Qed.
+
